@@ -42,7 +42,7 @@ def upSt0 : Stmt → Stmt
   | .update w t sets wh ob lm => .update (w.map (List.map upW)) (upTN t) (sets.map (Prod.map up upE)) (wh.map upE) (ob.map (List.map upO)) lm
   | .delete t wh ob lm => .delete (upTN t) (wh.map upE) (ob.map (List.map upO)) lm
   | .createTable c => .createTable (upCR c)
-  | .createTableAs t q => .createTableAs (upTN t) (upQ q)
+  | .createTableAs t ine q => .createTableAs (upTN t) ine (upQ q)
   | .dropTable b t => .dropTable b (upTN t)
   | .set c => .set (upCS c)
   | .analyze t p a b c => .analyze (upTN t) (p.map (List.map upE)) a b c
